@@ -120,3 +120,78 @@ def build_node_contracts(chk: Check, search) -> None:
         got = mul_args.get("args", [])
         chk.struct("formulate_isobar_cg_coefficients.ens.result_is_the_product_of_the_two", len(got) == 2 and all(isinstance(x, SV) for x in got)
                    and {str(x.t) for x in got} == {"CG_result1", "CG_result2"}, FC, witness=[str(x) for x in got], replay=search)
+
+
+def build_chain_contract(chk: Check, search) -> None:
+    """`HelicityAmplitudeBuilder.__formulate_sequential_decay(transition)` for ALL transitions with 1..3 nodes (E3):
+    ens  result = [coefficient unless helicity couplings] * prod over nodes of _formulate_partial_decay(transition, node)
+                  * [prefactor unless None];  components['A_{name}'] = result (added to an existing entry of that name:
+                  symmetrised permutations), every other component unchanged.
+    The node amplitudes, the coefficient and the prefactor are arbitrary real numbers (A-pure natives), so the equality is
+    decided as nonlinear real arithmetic (commutativity/associativity of the product are the solver's)."""
+    import itertools
+
+    from ampform import helicity as H
+    from vlib.pyvc import SMap
+
+    FS = "ampform.helicity.HelicityAmplitudeBuilder.__formulate_sequential_decay"
+    meth = getattr(H.HelicityAmplitudeBuilder, "_HelicityAmplitudeBuilder__formulate_sequential_decay", None)
+    chk.struct("formulate_sequential_decay.exists", meth is not None, FS, lemma=True, replay=search)
+    if meth is None:
+        return
+    chk.assume("native contracts for the chain contract: _formulate_partial_decay / coefficient / prefactor / amplitude name are arbitrary pure functions of "
+               "(transition, node); functools.reduce(operator.mul, xs) = left fold of *; expression values are real numbers (A-arith; the complex case is the same "
+               "polynomial identity)")
+    for k, couplings, has_pf in itertools.product((1, 2, 3), (False, True), (False, True)):
+        ex = Executor(f"chain{k}")
+        p = [z3.Real(f"partial{i}") for i in range(k)]
+        coef, pf = z3.Real("coefficient"), z3.Real("prefactor")
+        name = z3.Const("amplitude_name", Obj)
+        has0, val0 = z3.Array("comp_has0", Obj, z3.BoolSort()), z3.Array("comp_val0", Obj, Obj)
+        comps = Rec("Mapping", {"__map__": SMap(has0, val0)})
+        self_rec = Rec("Builder", {
+            "config": Rec("Config", {"use_helicity_couplings": couplings}),
+            "naming": Rec("Naming", {}),
+            "__ingredients": Rec("Ingredients", {"components": comps}),
+        })
+        ex.natives["Builder._formulate_partial_decay"] = lambda e, st, a, kw, p=p: iter([(st, SV(p[a[2]], "real"))])
+        ex.natives["Builder.__generate_amplitude_coefficient"] = lambda e, st, a, kw: iter([(st, SV(coef, "real"))])
+        ex.natives["Builder.__generate_amplitude_prefactor"] = lambda e, st, a, kw, has_pf=has_pf: iter([(st, SV(pf, "real") if has_pf else None)])
+        ex.natives["Naming.generate_amplitude_name"] = lambda e, st, a, kw: iter([(st, SV(name, "obj"))])
+
+        def n_reduce(e, st, a, kw):
+            f, xs = a[0], list(a[1])
+            acc = xs[0]
+            for x in xs[1:]:
+                acc = e.binop(__import__("ast").Mult(), acc, x, st)
+            yield st, acc
+
+        ex.natives["reduce"] = n_reduce
+        # f-string names: the component key is a function of the amplitude name
+        keyf = z3.Function("component_key", Obj, Obj)
+        transition = Rec("Transition", {"topology": Rec("Topology", {"nodes": list(range(k))})})
+        tag = f"k={k}/couplings={int(couplings)}/prefactor={'set' if has_pf else 'None'}"
+        try:
+            outs = ex.run(meth, [self_rec, transition])
+        except Unsupported as e:
+            chk.struct(f"formulate_sequential_decay[{tag}].in_supported_subset", False, FS, witness=str(e), lemma=True, replay=search)
+            continue
+        chk.struct(f"formulate_sequential_decay[{tag}].in_supported_subset", True, FS, lemma=True)
+        want = z3.RealVal(1)
+        for x in p:
+            want = want * x
+        if not couplings:
+            want = coef * want
+        if has_pf:
+            want = want * pf
+        posts = []
+        for oc in outs:
+            pc = z3.And(*oc.st.pc) if oc.st.pc else z3.BoolVal(True)
+            if oc.kind != "return" or not isinstance(oc.value, SV):
+                posts.append(z3.Not(pc))
+                continue
+            posts.append(z3.Implies(pc, _real_of(oc.value) == want))
+        chk.smt(f"formulate_sequential_decay[{tag}].ens.coefficient_x_product_over_nodes_x_prefactor", [], z3.And(*posts) if posts else z3.BoolVal(False), function=FS, replay=search,
+                tactics=("default", "nlsat"))
+        chk.struct(f"formulate_sequential_decay[{tag}].paths", 1 <= len(outs) <= 2, FS, witness=len(outs), lemma=True, replay=search,
+                   note="one path per 'component name already registered' case")
